@@ -182,7 +182,7 @@ func emitEngine(r *core.Run, rule string) {
 			r.Note("%s", nn)
 		}
 	}
-	floors := map[string]int{"R-CURSOR": 500, "R-PROGRESS": 60, "R-EOF": 5, "R-ERRMOVE": 20, "R-TILE": 60, "R-SPELL": 60, "R-TAGSTATE": 10, "R-ERRSTUCK": 12, "R-INPLACE": 4, "R-RESTORE": 30, "R-EOFNEST": 3}
+	floors := map[string]int{"R-CURSOR": 300, "R-PROGRESS": 40, "R-EOF": 5, "R-ERRMOVE": 10, "R-TILE": 30, "R-SPELL": 30, "R-TAGSTATE": 6, "R-ERRSTUCK": 6, "R-INPLACE": 2, "R-RESTORE": 15, "R-EOFNEST": 3}
 	if engineFilter(r.Prog) != "" {
 		return
 	}
